@@ -54,7 +54,8 @@ def _sig_names(sig):
 
 def finding_matches(finding, prop, rec):
     """Does the known-finding entry describe this violation record?"""
-    if finding["property"] != prop:
+    props = finding["property"] if isinstance(finding["property"], list) else [finding["property"]]
+    if prop not in props:
         return False
     m = finding.get("match", {})
     if "op" in m and rec.get("op") not in m["op"]:
